@@ -61,4 +61,32 @@ def matchAll (lp : Nat → Option Nat) (pos : Nat → Option Nat) : Nat → List
            matchAll lp pos (k + 1) is ds'
        | _, _, _ => false)
 
+/-- the final bytes `fin` of instruction `i` at address `p` decode (whatever follows them) to an instruction denoting
+`i`, or to the inverted-condition trampoline for `i` -/
+inductive Decoded (lp : Nat → Option Nat) (p : Nat) (i : Insn) (fin : Bytes) : Prop
+  | single (d : DInsn) : 1 ≤ fin.length → (∀ rest, decodeOne p (fin ++ rest) = some (d, fin.length)) →
+      denote1 lp i d = true → Decoded lp p i fin
+  | tramp (c : Cond) (t : Nat) (g : Int) : i = .ifc c t → fin.length = 8 →
+      (∀ rest, decodeOne p (fin ++ rest) = some (.ifc (negIf c.opcode) ((p + 8 : Nat) : Int), 3)) →
+      (∀ rest, decodeOne (p + 3) ((fin ++ rest).drop 3) = some (.goto g, 5)) →
+      lands lp t g = true → Decoded lp p i fin
+
+/-- operands fit the Rust types of the tree (`i8`, `i16`, `u16`, `i32`), the opcode of an operand-less instruction
+is one (JVMS §6.5), local-variable kinds are `i l f d a` -/
+def wt : Insn → Bool
+  | .simple op => isSimple op
+  | .bipush v => decide (-128 ≤ v) && decide (v ≤ 127)
+  | .sipush v => decide (-32768 ≤ v) && decide (v ≤ 32767)
+  | .ldc idx _ => decide (idx ≤ 65535)
+  | .load k i => decide (k ≤ 4) && decide (i ≤ 65535)
+  | .store k i => decide (k ≤ 4) && decide (i ≤ 65535)
+  | .iinc i v => decide (i ≤ 65535) && decide (-32768 ≤ v) && decide (v ≤ 32767)
+  | .ret i => decide (i ≤ 65535)
+  | .ifc _ _ => true
+  | .goto _ => true
+  | .jsr _ => true
+  | .tableswitch _ lo hi _ =>
+    decide (-2147483648 ≤ lo) && decide (lo ≤ 2147483647) && decide (-2147483648 ≤ hi) && decide (hi ≤ 2147483647)
+  | .lookupswitch _ ps => ps.all (fun kp => decide (-2147483648 ≤ kp.1) && decide (kp.1 ≤ 2147483647))
+
 end CodeDenote
